@@ -137,6 +137,8 @@ pub trait Item {
     fn load_cmp(&self, r: &mut dyn Read) -> io::Result<(bool, bool)>;
     fn sbp(&self) -> Option<usize>;
     fn is_option(&self) -> bool;
+    // serialize_to a file, compare the file with `bytes`, load_from it again and compare with the original
+    fn file_roundtrip(&self, path: &std::path::Path, bytes: &[u8]) -> bool;
 }
 
 pub struct G<T> {
@@ -175,6 +177,19 @@ impl<T: Serialize + PartialEq> Item for G<T> {
     }
     fn is_option(&self) -> bool {
         self.is_opt
+    }
+    fn file_roundtrip(&self, path: &std::path::Path, bytes: &[u8]) -> bool {
+        let mut ok = serialize::serialize_to(&self.v, path).is_ok();
+        ok &= match std::fs::read(path) {
+            Ok(content) => content[..] == bytes[..],
+            Err(_) => false,
+        };
+        ok &= match serialize::load_from::<T, _>(path) {
+            Ok(x) => x == self.v,
+            Err(_) => false,
+        };
+        let _ = std::fs::remove_file(path);
+        ok
     }
 }
 
@@ -561,10 +576,18 @@ fn emit_round(out: &mut Out, rng: &mut Rng, it: &dyn Item, kind: &str) {
     let chunk = *rng.pick(&[0usize, 0, 1, 3, 8, 13]);
     let mut reader = CountingReader::new(&stream, chunk);
     let r = catch(|| it.load_cmp(&mut reader));
-    let (eq, ans) = match r {
+    let (eq, mut ans) = match r {
         Res::Ok(Ok((a, b))) => (a, b),
         _ => (false, false),
     };
+    if kind == "systematic" || out.n % 4 == 0 {
+        // the file-based entry points: serialize_to / load_from
+        let dir = std::env::var("VERIF_RUNDIR").unwrap_or_else(|_| ".".to_string());
+        let path = std::path::Path::new(&dir).join(format!("c06_tmp_{}_{}.bin", std::process::id(), out.n));
+        let f = catch(|| it.file_roundtrip(&path, &bytes));
+        ans &= matches!(f, Res::Ok(true));
+        out.stat("c06.file_roundtrips");
+    }
     let term = format!("CRound {} {} {} {} {} {} {} {} {} {} {} {} {}", PATH, b(DBG), it.ty(), it.recipe(), nlist(&elems), blist8(&tail),
         it.size_el(), it.size_by(), blist8(&extra), reader.pos, b(eq), b(ans), opt(&it.sbp(), |x| nu(*x)));
     out.stat(&format!("c06.round.{}", it.ty().replace(|c: char| !c.is_alphanumeric(), "")));
